@@ -1,7 +1,7 @@
 SPECIFICATION Spec
 CONSTANTS
   Routers = {"P", "L"}
-  Ops = {"Authorize", "Login", "Callback", "CodeExchange", "Refresh"}
+  Ops = {"Authorize", "Login", "Callback", "CodeExchange", "Refresh", "Withdraw"}
   MaxReq = 1
   MaxCode = 1
   MaxAT = 4
